@@ -22,6 +22,7 @@ type PropTarget struct {
 	Units  []string `json:"units"`
 	Kinds  []string `json:"kinds,omitempty"` // obligation kinds that count for the property (empty = all)
 	Own    bool     `json:"ownership,omitempty"`
+	Seq    bool     `json:"seq,omitempty"` // sequential reading: "func@seq" contracts, no havoc at lock acquisition
 }
 
 type PropConfig struct {
@@ -175,6 +176,7 @@ func checkMain(repo, verifRoot, prop, tier, replayFile string, verbose bool) int
 		}
 		for _, t := range byModule[mod] {
 			e.checkOwnership = t.Own
+			e.seqMode = t.Seq
 			pkgPath := ""
 			for p := range e.spkgs {
 				if p == t.Pkg || strings.HasSuffix(p, "/"+t.Pkg) {
